@@ -267,6 +267,14 @@ Proof.
     + intros H; inversion H; subst. split; [left; reflexivity|discriminate].
 Qed.
 
+Lemma gstop_go_S f n lk sh w ords x :
+  gstop_go (S f) n lk sh w ords x =
+  (let '(x1, _, r) := do_flush n lk sh w (hd [] ords) [] x in
+   match r with ROk => (x1, ROk) | RCrash => (x1, RCrash) | _ => gstop_go f n lk sh w (tl ords) x1 end).
+Proof. reflexivity. Qed.
+Lemma gstop_go_O n lk sh w ords x : gstop_go O n lk sh w ords x = (x, RErr).
+Proof. reflexivity. Qed.
+Arguments gstop_go : simpl never.
 Arguments cou : simpl never.
 Arguments del_loop : simpl never.
 Arguments shard_of : simpl never.
@@ -598,6 +606,7 @@ Definition Pop (s : st) (o : op) : string -> body -> Prop :=
   | OFg f _ => Pf f
   | OFlush _ inter _ => Pall (loc (sto s)) (allf inter)
   | OStop _ _ => Pall (loc (sto s)) []
+  | OGStop _ _ => Pall (loc (sto s)) []
   | OLoad _ => fun m it => In (m, it) (api s)
   | ORestart _ _ => fun _ _ => False
   end.
@@ -606,8 +615,42 @@ Definition Dop (o : op) : string -> Prop :=
   | OFg f _ => Df f
   | OFlush _ inter _ => Dfs (allf inter)
   | OStop _ _ => Dfs []
+  | OGStop _ _ => Dfs []
   | _ => fun _ => False
   end.
+
+Lemma do_flush_plain_loc0 n lk sh w ord x x1 rs r : do_flush n lk sh w ord [] x = (x1, rs, r) -> wloc x1 = wloc x.
+Proof.
+  unfold do_flush. destruct (negb (key_nodup ord)); [intros H; inversion H; subst; reflexivity|].
+  destruct (flush_go n lk sh w (wloc x) ord [] x [] []) as [[[x0 dq] rs1] out] eqn:EF.
+  assert (G : forall ord x dq rs x' dq' rs' out, flush_go n lk sh w (wloc x0) ord [] x dq rs = (x', dq', rs', out) -> True) by (intros; exact I).
+  clear G.
+  assert (HL : forall snap ord x dq rs x' dq' rs' out,
+             flush_go n lk sh w snap ord [] x dq rs = (x', dq', rs', out) -> wloc x' = wloc x /\ dq' = dq).
+  { clear. intros snap ord. induction ord as [|k r IH]; intros x dq rs x' dq' rs' out; simpl.
+    - intros H; inversion H; subst. tauto.
+    - destruct (lget k snap) as [b|]; [|intros H; inversion H; subst; tauto].
+      destruct (negb (shard_of n (bup b) =? sh)); [intros H; inversion H; subst; tauto|].
+      destruct (cou 5 (wapi x) (wpl x) (snd k) b (Some b)) as [[a pl] cr]. destruct cr.
+      + intros H. apply IH in H. exact H.
+      + intros H; inversion H; subst. tauto.
+      + intros H; inversion H; subst. tauto. }
+  apply HL in EF. destruct EF as [EF Hdq]. subst dq.
+  destruct (res_eqb out RCrash); [intros H; inversion H; subst; exact EF|].
+  simpl. intros H; inversion H; subst. exact EF.
+Qed.
+
+Lemma gstop_R fuel n lk sh w : forall ords x x1 r,
+  gstop_go fuel n lk sh w ords x = (x1, r) -> R n sh (Pall (wloc x) []) (Dfs []) x x1.
+Proof.
+  induction fuel as [|f IH]; intros ords x x1 r.
+  - rewrite gstop_go_O. intros H; inversion H; subst. apply R_refl.
+  - rewrite gstop_go_S. destruct (do_flush n lk sh w (hd [] ords) [] x) as [[x0 rs] q] eqn:EF.
+    pose proof (do_flush_plain_loc0 _ _ _ _ _ _ _ _ _ EF) as Hloc.
+    apply do_flush_R in EF. simpl in EF.
+    destruct q; try (intros H; inversion H; subst; exact EF);
+      (intros H; apply IH in H; rewrite Hloc in H; eapply R_trans; [exact EF|exact H]).
+Qed.
 
 Definition step_post (n : Z) (s : st) (o : op) (s' : st) : Prop :=
   wr_api (Pop s o) (Dop o) (api s) (api s')
@@ -629,7 +672,7 @@ Qed.
 
 Lemma step_R n lk s o s' q : step n lk s o = (s', q) -> step_post n s o s'.
 Proof.
-  destruct o as [f pl|ord inter pl|ord pl|oc|sh w]; simpl.
+  destruct o as [f pl|ord inter pl|ord pl|ords pl|oc|sh w]; simpl.
   - destruct (dead (sto s)).
     { intros H; inversion H; subst. split; [apply wr_api_refl|split; [right; split; [reflexivity|apply wr_loc_refl]|tauto]]. }
     destruct (do_fop n (shard (sto s)) (wt (sto s)) f (mkW (api s) (loc (sto s)) pl)) as [x r] eqn:E.
@@ -646,6 +689,13 @@ Proof.
     { intros H; inversion H; subst. split; [apply wr_api_refl|split; [right; split; [reflexivity|apply wr_loc_refl]|tauto]]. }
     destruct (do_flush n lk (shard (sto s)) (wt (sto s)) ord [] (mkW (api s) (loc (sto s)) pl)) as [[x rs] r] eqn:E.
     apply do_flush_R in E. destruct E as [E1 [E2 E3]]. simpl in *.
+    intros H; inversion H; subst. eapply finish_post; [exact E1|exact E2|exact E3|reflexivity|reflexivity].
+  - destruct (dead (sto s)).
+    { intros H; inversion H; subst. split; [apply wr_api_refl|split; [right; split; [reflexivity|apply wr_loc_refl]|tauto]]. }
+    destruct (stopped (sto s)).
+    { intros H; inversion H; subst. split; [apply wr_api_refl|split; [right; split; [reflexivity|apply wr_loc_refl]|tauto]]. }
+    destruct (gstop_go 10 n lk (shard (sto s)) (wt (sto s)) ords (mkW (api s) (loc (sto s)) pl)) as [x r] eqn:E.
+    apply gstop_R in E. destruct E as [E1 [E2 E3]]. simpl in *.
     intros H; inversion H; subst. eapply finish_post; [exact E1|exact E2|exact E3|reflexivity|reflexivity].
   - destruct (dead (sto s)).
     { intros H; inversion H; subst. split; [apply wr_api_refl|split; [right; split; [reflexivity|apply wr_loc_refl]|tauto]]. }
@@ -740,9 +790,10 @@ Qed.
 
 Lemma Dop_touch o X : Dop o X -> exists f, In f (op_fops o) /\ ftouch X f.
 Proof.
-  destruct o as [f pl|ord inter pl|ord pl|oc|sh w]; simpl; try contradiction.
+  destruct o as [f pl|ord inter pl|ord pl|ords pl|oc|sh w]; simpl; try contradiction.
   - intros H. exists f; split; [left; reflexivity|]. destruct f; simpl in *; [contradiction|congruence|exact H].
   - intros [f [F1 F2]]. exists f; split; [exact F1|]. destruct f; simpl in *; [contradiction|congruence|exact F2].
+  - intros [f [[] _]].
   - intros [f [[] _]].
 Qed.
 
@@ -752,10 +803,11 @@ Lemma Pop_cases s o X it : Pop s o X it ->
   \/ (exists c, In (FSave c) (op_fops o) /\ fst c = X /\ ceq it (snd c))
   \/ In (X, it) (api s).
 Proof.
-  destruct o as [f pl|ord inter pl|ord pl|oc|sh w]; simpl.
+  destruct o as [f pl|ord inter pl|ord pl|ords pl|oc|sh w]; simpl.
   - intros H. right; left. destruct f as [c| |]; simpl in H; try contradiction.
     exists c. destruct H as [H1 H2]. split; [left; reflexivity|]. split; [symmetry; exact H1|exact H2].
   - intros [H|H]; [left; exact H|]. right; left. apply Pfs_sub; exact H.
+  - intros [H|[f [[] _]]]. left; exact H.
   - intros [H|[f [[] _]]]. left; exact H.
   - intros H; right; right; exact H.
   - contradiction.
@@ -1116,6 +1168,119 @@ Proof.
   - destruct EF as [b' [it [E1 [E2 E3]]]]. rewrite Hb in E1; inversion E1; subst. exists it; tauto.
   - intros [u1 m1] [u2 m2] b1 b2 H1 H2 Hm. simpl in Hm. subst m2.
     destruct (O2 _ _ _ H1) as [A1 _]. destruct (O2 _ _ _ H2) as [A2 _]. congruence.
+Qed.
+
+(* ------------------------------------------------------------------ graceful stop by the limiter *)
+Lemma flush_plain_loc n lk sh w snap ord : forall x dq rs x' dq' rs' out,
+  flush_go n lk sh w snap ord [] x dq rs = (x', dq', rs', out) -> wloc x' = wloc x.
+Proof.
+  induction ord as [|k r IH]; intros x dq rs x' dq' rs' out; simpl.
+  - intros H; inversion H; subst. reflexivity.
+  - destruct (lget k snap) as [b|]; [|intros H; inversion H; subst; reflexivity].
+    destruct (negb (shard_of n (bup b) =? sh)); [intros H; inversion H; subst; reflexivity|].
+    destruct (cou 5 (wapi x) (wpl x) (snd k) b (Some b)) as [[a pl] cr]. destruct cr.
+    + intros H. apply IH in H. exact H.
+    + intros H; inversion H; subst. reflexivity.
+    + intros H; inversion H; subst. reflexivity.
+Qed.
+
+Lemma do_flush_plain_loc n lk sh w ord x x1 rs r : do_flush n lk sh w ord [] x = (x1, rs, r) -> wloc x1 = wloc x.
+Proof.
+  unfold do_flush. destruct (negb (key_nodup ord)); [intros H; inversion H; subst; reflexivity|].
+  destruct (flush_go n lk sh w (wloc x) ord [] x [] []) as [[[x0 dq] rs1] out] eqn:EF.
+  pose proof (flush_plain_frame _ _ _ _ _ _ _ _ _ _ _ _ _ EF) as [_ Hdq]. subst dq.
+  apply flush_plain_loc in EF.
+  destruct (res_eqb out RCrash); [intros H; inversion H; subst; exact EF|].
+  rewrite run_inter_nil. intros H; inversion H; subst. exact EF.
+Qed.
+
+Definition UniqNames (l : localst) : Prop :=
+  forall k1 k2 b1 b2, lget k1 l = Some b1 -> lget k2 l = Some b2 -> snd k1 = snd k2 -> k1 = k2.
+
+Lemma do_flush_plain_ok n lk sh w ord x x1 rs :
+  UniqNames (wloc x) -> LocOwn n sh (wloc x) ->
+  do_flush n lk sh w ord [] x = (x1, rs, ROk) ->
+  forall k b, lget k (wloc x) = Some b -> exists it, aget (snd k) (wapi x1) = Some it /\ ceq it b.
+Proof.
+  intros Huniq Hown. unfold do_flush.
+  destruct (key_nodup ord) eqn:End; simpl negb; cbv iota; [|intros H; inversion H].
+  destruct (flush_go n lk sh w (wloc x) ord [] x [] []) as [[[x0 dq] rs1] out] eqn:EF.
+  pose proof (flush_plain_frame _ _ _ _ _ _ _ _ _ _ _ _ _ EF) as [_ Hdq]. subst dq.
+  destruct (res_eqb out RCrash) eqn:Ecr; [intros H; inversion H|].
+  rewrite run_inter_nil.
+  destruct (res_eqb out ROk) eqn:Eok.
+  2:{ intros H; inversion H; subst. simpl in Eok; discriminate. }
+  apply res_eqb_eq in Eok. subst out.
+  destruct (forallb _ (wloc x)) eqn:Eall; [|intros H; inversion H].
+  intros H; inversion H; subst. intros k b Hb.
+  assert (Hin : In k ord).
+  { pose proof Hb as Hb'. apply (alookup_In key_eqb key_eqb_spec) in Hb'.
+    rewrite forallb_forall in Eall. specialize (Eall _ Hb'). simpl in Eall.
+    destruct k as [u m]. rewrite (Hown u m b Hb) in Eall.
+    rewrite Z.eqb_refl in Eall. simpl in Eall. apply key_mem_In; exact Eall. }
+  eapply flush_plain_ok in EF; [|exact Huniq|exact End|exact Hin].
+  destruct EF as [b' [it [E1 [E2 E3]]]]. rewrite Hb in E1; inversion E1; subst. exists it; tauto.
+Qed.
+
+Lemma gstop_ok fuel n lk sh w : forall ords x x1,
+  UniqNames (wloc x) -> LocOwn n sh (wloc x) ->
+  gstop_go fuel n lk sh w ords x = (x1, ROk) ->
+  forall k b, lget k (wloc x) = Some b -> exists it, aget (snd k) (wapi x1) = Some it /\ ceq it b.
+Proof.
+  induction fuel as [|f IH]; intros ords x x1 Hu Ho; [rewrite gstop_go_O; intros H; inversion H|].
+  rewrite gstop_go_S.
+  destruct (do_flush n lk sh w (hd [] ords) [] x) as [[x0 rs] r] eqn:EF.
+  pose proof (do_flush_plain_loc _ _ _ _ _ _ _ _ _ EF) as Hloc.
+  destruct r; try (intros H; inversion H; fail);
+    try (intros H; intros k b Hb; eapply IH; [rewrite Hloc; exact Hu|rewrite Hloc; exact Ho|exact H|rewrite Hloc; exact Hb]).
+  intros H; inversion H; subst. eapply do_flush_plain_ok; eassumption.
+Qed.
+
+(* number of Stop() attempts the limiter makes *)
+Fixpoint gstop_attempts (fuel : nat) (n : Z) (lk : locks) (sh : Z) (w : bool) (ords : list (list key)) (x : world) : nat :=
+  match fuel with
+  | O => O
+  | S f =>
+      let '(x1, _, r) := do_flush n lk sh w (hd [] ords) [] x in
+      match r with
+      | ROk | RCrash => 1%nat
+      | _ => S (gstop_attempts f n lk sh w (tl ords) x1)
+      end
+  end.
+
+Lemma gstop_gives_up_only_after_all fuel n lk sh w : forall ords x x1,
+  gstop_go fuel n lk sh w ords x = (x1, RErr) -> gstop_attempts fuel n lk sh w ords x = fuel.
+Proof.
+  induction fuel as [|f IH]; intros ords x x1; [reflexivity|].
+  rewrite gstop_go_S. simpl gstop_attempts.
+  destruct (do_flush n lk sh w (hd [] ords) [] x) as [[x0 rs] r].
+  destruct r; try (intros H; inversion H; fail); intros H; f_equal; eapply IH; exact H.
+Qed.
+
+(* a graceful stop by the limiter (retry around Stop, bound 10): if it reports success — which it does
+   unless ten flush attempts in a row fail — every condition the store holds is in the API; it only
+   gives up after exactly ten failed attempts *)
+Lemma graceful_stop_survives n lk owner s ords pl s' rs :
+  Inv n owner s -> stopped (sto s) = false ->
+  step n lk s (OGStop ords pl) = (s', (ROk, rs)) ->
+  forall k b, lget k (loc (sto s)) = Some b -> exists it, aget (snd k) (api s') = Some it /\ ceq it b.
+Proof.
+  intros [I1 [[_ O2] I3]] Hst. unfold step. destruct (dead (sto s)); [intros H; inversion H|]. rewrite Hst.
+  destruct (gstop_go 10 n lk (shard (sto s)) (wt (sto s)) ords (mkW (api s) (loc (sto s)) pl)) as [x r] eqn:EG.
+  intros H; inversion H; subst r. unfold finish; simpl.
+  intros k b Hb. eapply (gstop_ok 10 n lk (shard (sto s)) (wt (sto s)) ords (mkW (api s) (loc (sto s)) pl) x); [|exact I3|exact EG|exact Hb].
+  simpl. intros [u1 m1] [u2 m2] b1 b2 H1' H2' Hm. simpl in Hm. subst m2.
+  destruct (O2 _ _ _ H1') as [A1 _]. destruct (O2 _ _ _ H2') as [A2 _]. congruence.
+Qed.
+
+Lemma graceful_stop_gives_up_late n lk s ords pl s' rs :
+  dead (sto s) = false -> stopped (sto s) = false ->
+  step n lk s (OGStop ords pl) = (s', (RErr, rs)) ->
+  gstop_attempts 10 n lk (shard (sto s)) (wt (sto s)) ords (mkW (api s) (loc (sto s)) pl) = 10%nat.
+Proof.
+  intros Hd Hst. unfold step. rewrite Hd, Hst.
+  destruct (gstop_go 10 n lk (shard (sto s)) (wt (sto s)) ords (mkW (api s) (loc (sto s)) pl)) as [x r] eqn:EG.
+  intros H; inversion H; subst r. eapply gstop_gives_up_only_after_all. exact EG.
 Qed.
 
 (* ------------------------------------------------------------------ Delete racing a flush *)
